@@ -1552,7 +1552,7 @@ theorem C13_vcf_line_tokens (filt : Bool) (l : VcfText) :
   have hu : vcfAllelesUpper = true := rfl
   simp only [lineKept, alleleText, hu, if_true, vcfFilterAccept, vcfSnpBases, Bool.and_eq_true, Bool.not_eq_true',
     List.contains_eq_mem, decide_eq_true_eq, List.mem_cons, List.not_mem_nil, or_false]
-  cases filt <;> simp
+  cases filt <;> simp [and_assoc, or_iff_not_imp_left]
 
 example : ["PASS", "."].all (fun s => lineKept true ⟨s.toList, "a".toList, "T".toList, []⟩) = true := by decide
 example : ["pass", "Pass", "PASS;q10", "PAS", "PASSED", "..", "q10", ""].all
@@ -1571,7 +1571,7 @@ theorem C13_vcf_line_site (filt : Bool) (c p : ℕ) (l : VcfText) (inds : List I
   have hb : ∀ s : List Char, isBase (baseCode s) = vcfSnpBases.contains s := by
     intro s
     unfold baseCode
-    split_ifs with h0 h1 h2 h3 h4 <;> simp_all [isBase, vcfSnpBases] <;> decide
+    split_ifs with h0 h1 h2 h3 h4 <;> simp_all [isBase, vcfSnpBases]
   refine ⟨by simp [siteKept, lineSite, lineKept, hb], ?_⟩
   intro aa haa
   have hmem : aa = "-".toList ∨ aa ∈ ["A".toList, "C".toList, "G".toList, "T".toList] := by
